@@ -5,7 +5,8 @@ From LV Require Import Forest.ExplicitBuild Forest.ExplicitAlgBuild.
 From LV Require Import Base.Prelude Cfg.Grammar Earley.Spec Recons.Recons Recons.Recons_proofs Recons.ReconsCheck
      Recons.ReconsCheck_proofs Recons.Text Recons.Text_proofs Recons.Complete_proofs Recons.Link_proofs Recons.Extra_proofs Recons.Roundtrip_proofs
      Recons.EarleyM Recons.EarleyM_proofs Recons.EarleyM_sel Lex.LexerBase Lex.Lexer Recons.Relex Recons.Relex_proofs
-     Recons.Char_proofs Recons.RelexSafe Recons.RelexSafe_proofs Recons.CharSafe_proofs.
+     Recons.Char_proofs Recons.RelexSafe Recons.RelexSafe_proofs Recons.CharSafe_proofs
+     Recons.GenBase Gen.ReconsHoles Recons.Gen_proofs.
 Import ListNotations.
 
 (* core: one node.  For a supported match u of node (Node data cs) - root rule from rules_for_root[data], inner
@@ -441,3 +442,30 @@ Proof.
   - exists fuel, toks. auto.
 Qed.
 Print Assumptions C19_char_roundtrip_example.
+
+(* ---------------------------------------------------------------------------------------------------------------
+   Round 12: the conditions of the hand-written model are the ones regenerated from the source.  translator/gen_recons.py
+   pins Reconstructor.__init__/_reconstruct/reconstruct, WriteTokensTransformer (all four methods), is_iter_empty,
+   is_discarded_terminal, _MakeTreeMatch, _best_from_group, _best_rules_from_group, _match, make_recons_rule(_to_term),
+   ChildrenLexer.lex, TreeMatcher.__init__/_build_recons_rules/match_tree, utils.is_id_continue/_test_unicode_category by
+   fail-closed templates and writes their conditions to Gen/ReconsHoles.v (g_...); the model uses exactly these. *)
+Theorem C19_model_conditions_regenerated :
+  (* the spacing rule and is_id_continue (ASCII) *)
+  (forall prev item, need_space prev item = g_need_space is_id_continue true prev item) /\
+  forallb (fun n => Bool.eqb (is_id_continue (ascii_of_nat n)) (idc_of_cats g_idc_cats (ascii_of_nat n))) (seq 0 128) = true /\
+  (* is_discarded_terminal *)
+  (forall s, discarded s = match s with Tm _ fo => g_discarded true fo | Nt _ => g_discarded false false end) /\
+  (* _build_recons_rules: inlined non-terminals, skipped alternatives, the loop's classification *)
+  (forall us P n, is_nonterminal us P n =
+                  memn n (rule_names P) && g_is_nt (us n) (memn n (expand1s P)) (memn n (aliased P))) /\
+  (forall us P r, skipped us P r = g_skip (list_eqb symbol_eqb (recons_exp us P r) [NT (p_origin r)]) (has_alias r)) /\
+  (forall us P rs seen, Recons.build_loop us P rs seen = build_loop_g us P rs seen) /\
+  (* _best_from_group never replaces inside a group (equal expansions); the sort is by ascending length *)
+  (forall len, g_better (g_cmp_key len) (g_cmp_key len) = false) /\
+  (forall x r, Nat.ltb (length (r_exp x)) (length (r_exp r)) =
+               Z.ltb (g_sort_key (Z.of_nat (length (r_exp x)))) (g_sort_key (Z.of_nat (length (r_exp r))))).
+Proof.
+  exact (conj need_space_gen (conj is_id_continue_gen (conj discarded_gen (conj is_nonterminal_gen
+        (conj skipped_gen (conj build_loop_gen (conj best_never_replaces sort_key_gen))))))).
+Qed.
+Print Assumptions C19_model_conditions_regenerated.
